@@ -35,6 +35,15 @@ class Oracle(simcheck.BaseOracle):
         self.n_complete = 0
         self.multi = False
 
+    def before_action(self, run, sidx, market, a, order, state):
+        self.pre = None
+        if a[0] == "place" and order is not None:
+            ctx = order.trade.strategy._invested.get(order.lookup)
+            self.pre = (order, None) if ctx is None else (
+                order, {"live": order.trade.id in ctx.live_trades, "known": order.trade.id in ctx.trades,
+                        "reset": ctx.reset_elapsed_seconds, "placed": ctx.placed_elapsed_seconds,
+                        "n_live": ctx.live_trade_count, "n": ctx.trade_count})
+
     def on_action(self, run, sidx, market, a, result, order):
         if a[0] == "place" and a[3] and order is not None:
             self.forced.add((sidx, market.market_id, order.selection_id))
@@ -43,13 +52,23 @@ class Oracle(simcheck.BaseOracle):
             st = order.trade.strategy
             ctx = st.get_runner_context(*order.lookup)
             key = (sidx, market.market_id, order.selection_id)
+            pre = self.pre[1] if (getattr(self, "pre", None) and self.pre[0] is order) else None
+            # the multi-order shortcut applies only to a trade that was LIVE on this runner before the request
+            shortcut = st.multi_order_trades and pre is not None and pre["live"]
             if key not in self.forced:
                 if ctx.trade_count > st.max_trade_count:
                     self.add("max-trade-count-exceeded", "strategy %d runner %s: trade_count %d > max %d after an accepted placement" % (
                         sidx, order.lookup, ctx.trade_count, st.max_trade_count))
-                if ctx.live_trade_count > st.max_live_trade_count and not st.multi_order_trades:
+                if ctx.live_trade_count > st.max_live_trade_count and not shortcut:
                     self.add("max-live-trade-count-exceeded", "strategy %d runner %s: live_trade_count %d > max %d after an accepted placement" % (
                         sidx, order.lookup, ctx.live_trade_count, st.max_live_trade_count))
+                if pre is not None and not shortcut:
+                    if pre["reset"] and pre["reset"] < order.trade.reset_seconds:
+                        self.add("cool-down-ignored", "strategy %d runner %s: order accepted %.3fs after the last reset, reset_seconds %s" % (
+                            sidx, order.lookup, pre["reset"], order.trade.reset_seconds))
+                    if pre["placed"] and pre["placed"] < order.trade.place_reset_seconds:
+                        self.add("cool-down-ignored", "strategy %d runner %s: order accepted %.3fs after the last placement, place_reset_seconds %s" % (
+                            sidx, order.lookup, pre["placed"], order.trade.place_reset_seconds))
 
     def recount(self, run, where):
         for si, st in enumerate(run.strategies):
